@@ -145,7 +145,9 @@ def run_cluster_bounds(ctx, rep):
     name_rx = re.compile(r'(^|_)cluster$|^cluster_|_cluster_')
     n = 0
     for fn in facts.fns.values():
-        if fn.crate != 'fatfs' or not fn.blocks:
+        # helpers that were made transparent (inlined) are looked at in their own right too: inside the caller the
+        # flow-insensitive dependence of a cluster number is too wide to tell the two sides of a comparison apart
+        if fn.crate not in ('fatfs', 'fatfs-inlined') or not fn.blocks:
             continue
         d = None
 
